@@ -107,6 +107,7 @@ def run(chk: common.Check):
 
     # ------------------------------------------------------------ search: end-to-end -c vs deletion
     found = []
+    nperm = [0]
     inputs = list(syn)
     if chk.thorough:
         inputs += [(n, structures.read(n)) for n in ("1HPX.pdb", "3SGB.pdb", "4DFR.pdb")]
@@ -137,6 +138,23 @@ def run(chk: common.Check):
                 sig = "chain-selection-differs:" + ("blank" if " " in cs else "named") + (":exception" if not (isinstance(ra, dict) and isinstance(rb, dict)) else "")
                 found.append((sig, f"{name}: -c {cs} differs from running on the file without the other chains: {d}",
                               {"input": name, "chains": cs, "pdb_text": text if len(text) < 20000 else None, "differences": d}))
+            # order and repetition of the identifiers in the option are irrelevant (C13_selection_depends_on_membership_only)
+            if len(cs) >= 2 and isinstance(ra, dict) and (chk.thorough or nperm[0] < 6):
+                nperm[0] += 1
+                for variant, vcs in (("reversed", cs[::-1]), ("repeated", cs + [cs[0]])):
+                    vopt = []
+                    for c in vcs:
+                        vopt += ["-c", c]
+                    try:
+                        rv = structures.results(text, vopt)
+                    except Exception as ex:
+                        rv = ("exception", type(ex).__name__, str(ex)[:80])
+                    chk.count(1, key=("e2e-order", name, tuple(vcs)))
+                    if rv != ra:
+                        d = structures.diff(ra, rv)[:4] if isinstance(rv, dict) else [rv]
+                        found.append(("chain-selection-differs:order-or-repetition",
+                                      f"{name}: -c {vcs} ({variant}) differs from -c {cs}: {d}",
+                                      {"input": name, "chains": vcs, "pdb_text": text if len(text) < 20000 else None, "differences": d}))
     # ------------------------------------------------------------ several structures in ONE invocation with a selection
     import os, shutil, subprocess, sys, tempfile
     from vlib.purejob import strip_date
@@ -192,7 +210,7 @@ def run(chk: common.Check):
               "small test PDBs, synthetic multi-chain fragments (no TER, restart at the same number, blank ids, ligand chains, ligand before chain), "
               "structured mutations and a malformed stream, with and without -c; distinct = (text, chain selection). Search: full pipeline with "
               "-c vs the file with the other chains' records deleted, all (quick: sampled) non-empty chain subsets"
-              " Added in rounds 5-6: several structures in one invocation with -c, segment identifiers on records with a blank chain."),
+              " Added in rounds 5-6: several structures in one invocation with -c, segment identifiers on records with a blank chain. Added later: the same selection with its identifiers reversed / one repeated must give the same results."),
         assumptions=["ATOM/HETATM records have at least 22 columns (otherwise the two runs fail with different exception classes)",
                      "downstream of the parser the options enter only through titrate_only/keep_protons/protonate_all/display_coupled_residues "
                      "(validated end to end by the search, not proved)"],
